@@ -1,5 +1,5 @@
 import WitnessVerif.Generated.ShippedConfig
-import WitnessVerif.Generated.Facts
+import WitnessVerif.Generated.FeederNames
 /-
 C17 — the shipped log configuration loads and is coherent.
 `Generated.logsYaml` / `Generated.logsTestYaml` are regenerated from the YAML files of /repo's working
